@@ -50,6 +50,8 @@ type Result struct {
 	HS        int               `json:"hs"`
 	Seen      map[string][]string `json:"seen,omitempty"` // verifrec tag -> values in order
 	Ambiguous string            `json:"ambiguous,omitempty"`
+	// AmbReasons lists every distinct ambiguity reason met (Ambiguous is the first).
+	AmbReasons []string `json:"amb_reasons,omitempty"`
 	// TXOrderDep lists TX keys whose final value depends on the visiting order of a multi-valued collection.
 	TXOrderDep map[string]bool `json:"tx_order_dep,omitempty"`
 }
@@ -85,6 +87,27 @@ func (m *model) amb(reason string) {
 	if m.res.Ambiguous == "" {
 		m.res.Ambiguous = reason
 	}
+	for _, r := range m.res.AmbReasons {
+		if r == reason {
+			return
+		}
+	}
+	if len(m.res.AmbReasons) < 32 {
+		m.res.AmbReasons = append(m.res.AmbReasons, reason)
+	}
+}
+
+// OrderDependent reports whether the model found the case's control flow to depend on the visiting order of a
+// multi-valued collection (then even the set of fired rules may legitimately vary between runs). Other
+// ambiguity reasons only mean that the model cannot predict the outcome; the outcome must still be the same
+// in every run.
+func (r *Result) OrderDependent() bool {
+	for _, a := range r.AmbReasons {
+		if strings.Contains(a, "order-dependent") || strings.Contains(a, "MATCHED_VARS(_NAMES)") {
+			return true
+		}
+	}
+	return false
 }
 
 // Keyed collections known to the model.
